@@ -29,13 +29,16 @@ for gran in (1, 2, 4):
                     bounded="-m %s, granularity %d: one data record of at most 8 bytes inside the window + end record (copy and lane loops unwound)" % (MODES[m], gran)))
 GROUPS.append(G("pb_SelectedCount", SRC, "h_SelectedCount", enforce=[], dfcc=False, drop_unused=True, link=["toolutils.c", "as_endian.c", "bpemu.c"], loops=False,
                 unwind=6, timeout=600, cflags=ERRNO, functions=["SelectedCount", "SelectedBelow"], object_bits=12, flags=["--slice-formula"]))
+GROUPS.append(G("pb_main_measures_first", "harness/C05/h_p2bin_main.c", "h_main_measures_first", enforce=[], dfcc=False, drop_unused=True, link=["toolutils.c", "as_endian.c", "bpemu.c"],
+                unwind=6, unwindset=["@MeasureFile:MeasureFile:last:3"], timeout=600, cflags=ERRNO, functions=["main", "MeasureFile"], object_bits=12, flags=["--slice-formula"],
+                bounded="one input file with one data record; option parsing and initialisers are oracles; the path ends where the target is opened"))
 TRUSTED_BASE = ["stubs/gfile.c ghost stdio model (exact position/length, one witness byte, pass-through cell, uniform-buffer ghost for memset)",
                 "stubs/gfile_small.c (bounded model with every byte, CloseTarget only)", "fopen creates/truncates the target (harness sets length 0)",
                 "FilterOK and AddChunk observed/oracle (FilterOK is under contract in C07; AddChunk / overlap warning not under contract)",
                 "message catalogue, printf/fprintf replaced by no-op monitors"]
 ASSUMPTIONS = ["record addresses do not wrap around 2^32; byte addresses of the window fit 32 bits", "granularity byte is 1, 2 or 4",
-               "the image is smaller than 2 GiB (file positions are long)", "main()'s call order (MeasureFile over all inputs, OpenTarget, ProcessFile over all inputs, CloseTarget) is not under contract"]
-NOT_COVERED = ["main (option parsing, call order)", "AddChunk/overlap warning (chunks.c)", "CMD_ByteMode table", "more than one data record per file (record loop unwound for one data + end record)", "EraseFile"]
+               "the image is smaller than 2 GiB (file positions are long)", "main()'s call order is under obligation only up to the creation of the image (MeasureFile before OpenTarget); ProcessFile over all inputs / CloseTarget order is not"]
+NOT_COVERED = ["main: option parsing, call order after the image is created", "AddChunk/overlap warning (chunks.c)", "CMD_ByteMode table", "more than one data record per file (record loop unwound for one data + end record)", "EraseFile"]
 EXPLANATION = ("ProcessFile's copy loop is closed by a loop contract (any record length); the record loop is unwound for one data record; lane modes are "
                "bounded stand-ins on the real 4 KiB transfer buffer (records of at most 8 bytes).")
 MANIFEST = dict(
